@@ -129,6 +129,9 @@ def zstr_method(I, s, name, args, kwargs, node):
     if name == "isspace" and not args:
         from .builtins_model import str_isspace_term
         return str_isspace_term(s)
+    if name in ("isascii", "isdigit", "isalpha", "isalnum", "isupper", "islower", "isprintable", "isnumeric", "isdecimal", "isidentifier", "istitle") and not args:
+        # a character-class test of the string: an uninterpreted predicate (same string, same answer)
+        return z3.Function("str." + name, z3.StringSort(), z3.BoolSort())(s)
     raise SymError("str method %s on symbolic string" % name)
 
 
@@ -429,6 +432,27 @@ def sbytes_method(I, s, name, args, kwargs, node):
         if name == "find":
             return -1
         raise sx.SymRaise(ValueError, "subsection not found")
+    if name in ("rstrip", "lstrip") and len(args) == 1 and isinstance(args[0], (bytes, bytearray)) and len(args[0]) <= 6:
+        # strip every trailing (leading) byte that is in the given set: the number r of stripped bytes is the unique one such that the r
+        # outer bytes are in the set and the next one is not
+        chars = list(args[0])
+        inset = lambda c: L.Or(*[L.eq(c, v) for v in chars])
+        r = I.ctx.fresh_int("stripped")
+        root = getattr(s, "root", None) or s
+        off = getattr(s, "off", 0)
+        if name == "rstrip":
+            I.ctx.assume(L.And(L.le(0, r), L.le(r, s.n),
+                               L.ForAllInt(off + s.n - r, off + s.n, lambda u: inset(root.at(u)), "u", pat=lambda u: root.at(u)),
+                               L.Implies(L.lt(r, s.n), L.Not(inset(s.at(s.n - r - 1))))))
+            out = SBytes(s.n - r, s.at, s.elem_range, s.kind)
+            out.root, out.off = root, off
+            return out
+        I.ctx.assume(L.And(L.le(0, r), L.le(r, s.n),
+                           L.ForAllInt(off, off + r, lambda u: inset(root.at(u)), "u", pat=lambda u: root.at(u)),
+                           L.Implies(L.lt(r, s.n), L.Not(inset(s.at(r))))))
+        out = SBytes(s.n - r, lambda k, s=s, r=r: s.at(r + k), s.elem_range, s.kind)
+        out.root, out.off = root, off + r
+        return out
     if name in ("ljust", "rjust"):
         w = args[0]
         fill = as_sbytes(args[1]) if len(args) > 1 else SBytes.from_concrete(b" ")
